@@ -15,6 +15,7 @@ class RandProblem(Problem):
     def __init__(self, n_var, n_obj, n_ieq, xl, xu, A, B, shift, digits, fscale=1.0, gscale=1.0, n_eq=0, Bh=None, shift_h=0.0, oscales=None):
         self.fscale = fscale; self.gscale = gscale
         self.oscales = np.array(oscales, dtype=float) if oscales is not None else None       # per-objective units (powers of two)
+        self.oshift = None
         super().__init__(n_var=n_var, n_obj=n_obj, n_ieq_constr=n_ieq, n_eq_constr=n_eq, xl=np.array(xl, dtype=float), xu=np.array(xu, dtype=float))
         self.Bh = np.array(Bh if Bh is not None else np.zeros((max(n_eq, 1), n_var)), dtype=float); self.shift_h = shift_h
         self.A = np.array(A, dtype=float); self.B = np.array(B, dtype=float); self.shift = shift; self.digits = digits
@@ -29,6 +30,8 @@ class RandProblem(Problem):
         out["F"] = np.round(F, self.digits) * self.fscale
         if self.oscales is not None:
             out["F"] = out["F"] * self.oscales
+        if self.oshift is not None:
+            out["F"] = out["F"] - self.oshift
         if self.n_ieq_constr > 0:
             out["G"] = np.round((Z @ self.B.T)[:, :self.n_ieq_constr] + self.shift, self.digits) * self.gscale
         if self.n_eq_constr > 0:
@@ -84,6 +87,8 @@ def gen_hist_case(rng, algs=("DE", "NSDE", "GDE3", "GDE3MNN", "GDE32NN", "GDE3P"
         ks = [rng.choice([70, 64, 0, -60]) for _ in range(n_obj)]
         if len(set(ks)) == 1: ks[0] = 70 if ks[0] != 70 else 0
         cfg["oscales"] = [2.0 ** k for k in ks]; cfg["digits"] = rng.choice([1, 1, 2])
+    if rng.random() < 0.15 and "oscales" not in cfg:
+        cfg["oshift"] = [rng.choice([0.0, 64.0, 64.0, 1.5]) for _ in range(n_obj)]       # F - 64 is negative on the whole box for these problems
     if alg in ("NSDE", "GDE3") and rng.random() < 0.3:
         cfg["surv"] = "default"; cfg["cf"] = "cd"      # no survival argument: the algorithm's own default operator
     if alg not in ("GA", "EA") and rng.random() < 0.3:
@@ -97,9 +102,12 @@ def gen_hist_case(rng, algs=("DE", "NSDE", "GDE3", "GDE3MNN", "GDE32NN", "GDE3P"
 
 
 def make_problem(cfg):
-    return RandProblem(cfg["n_var"], cfg["n_obj"], cfg["n_ieq"], decarr(cfg["xl"]), decarr(cfg["xu"]), cfg["A"], cfg["B"], cfg["shift"], cfg["digits"],
+    pr = RandProblem(cfg["n_var"], cfg["n_obj"], cfg["n_ieq"], decarr(cfg["xl"]), decarr(cfg["xu"]), cfg["A"], cfg["B"], cfg["shift"], cfg["digits"],
                        cfg.get("fscale", 1.0), cfg.get("gscale", 1.0), n_eq=cfg.get("n_eq", 0), Bh=cfg.get("Bh"), shift_h=cfg.get("shift_h", 0.0),
                        oscales=cfg.get("oscales"))
+    if cfg.get("oshift") is not None:
+        pr.oshift = np.array(cfg["oshift"], dtype=float)        # objectives that are negative for every point of the box (e.g. -f of a maximisation)
+    return pr
 
 
 _SHARED_F = {}
